@@ -72,7 +72,8 @@ def main():
       lcfg = []
       for layer in model._flatten_layers(include_self=False, recursive=True):  # pylint: disable=protected-access
         if type(layer).__module__.startswith("tensorflow_lattice"):
-          c = modelworld.json_norm(layer.get_config())
+          c = modelworld._strip_object_names(  # pylint: disable=protected-access
+              modelworld.json_norm(layer.get_config()))
           c.pop("name", None)
           lcfg.append([type(layer).__name__, c])
       np.savez(job["out"], y=y)
